@@ -6,6 +6,8 @@
 (*                                                                         *)
 (*   TunSend(n,a)      inside packet for overlay address a                 *)
 (*                     (GetOrHandshake: send / queue / StartHandshake)     *)
+(*   TunSendBurst(n,a,oks)  one tun read that is a TSO/USO superpacket:    *)
+(*                     several inside packets for a at once               *)
 (*   Retry(n,a)        the try-interval timer fired (handleOutbound)       *)
 (*   RecvHs1(n,m,via)  stage-1 handshake datagram (beginHandshake ->       *)
 (*                     CheckAndComplete -> stage 2 / cached stage 2 / ...) *)
@@ -174,6 +176,40 @@ TunSend(n, a, ok) ==
                    /\ SetTimer(n, a, Append(TimersOf(n, a), clock + 1))
                    /\ UNCHANGED <<tuns, hosts, clock>>
 
+\* ONE tun read that yields Len(oks) >= 1 inside packets for the same overlay address: a TSO/USO superpacket that the inside
+\* reader cuts into its segments (consumeInsidePacket -> tio.SegmentSuperpacket); oks[j] = will the outbound firewall allow
+\* segment j. The unit of every clause of C32 is the PACKET, not the read: with a tunnel every allowed segment is sent; behind a
+\* pending handshake the segments are queued one by one under the same bound as single packets, so the queue takes the first
+\* MaxQueue - Len(queue) of them and the rest is dropped; without a handshake one is started and the segments queue likewise.
+BurstTake(q, oks) == LET room == MaxQueue - Len(q) IN
+                     q \o SubSeq(oks, 1, IF Len(oks) < room THEN Len(oks) ELSE IF room > 0 THEN room ELSE 0)
+TunSendBurst(n, a, oks) ==
+    /\ Len(oks) >= 1
+    /\ sends < MaxTunSends /\ sends' = sends + 1
+    /\ a \notin Own[n]
+    /\ tunout' = 0 /\ UNCHANGED <<early, bad>>
+    /\ IF a \in DOMAIN hosts[n]
+         THEN LET t  == tuns[n][Primary(n, a)]
+                  na == Len(SelectSeq(oks, LAMBDA b : b)) IN
+              /\ msgs' = msgs \o [k \in 1..na |-> Data(n, t.ridx, t.key, t.tx + k)]
+              /\ tuns' = [tuns EXCEPT ![n][t.lidx].tx = t.tx + na]
+              /\ Emit([k \in 1..na |-> [id |-> Len(msgs) + k, to |-> t.remote]])
+              /\ UNCHANGED <<pend, hosts, clock, timers>>
+       ELSE IF a \in DOMAIN pend[n]
+         THEN /\ pend' = [pend EXCEPT ![n][a].queue = BurstTake(@, oks)]
+              /\ NoEmit /\ UNCHANGED <<msgs, tuns, hosts, clock, timers>>
+         ELSE \E i \in Idx \ (MainIdx(n) \cup PendIdx(n)) :
+                 /\ LET p == NewPending(BurstTake(<<>>, oks)) IN
+                    /\ msgs' = Append(msgs, Hs1(n, i, clock))
+                    /\ pend' = [pend EXCEPT ![n] = @ @@ (a :> [p EXCEPT !.ready = TRUE, !.idx = i, !.tries = 1,
+                                                                        !.hs1 = Len(msgs) + 1, !.due = clock + 1])]
+                    /\ LET dsts == SelectSeq(Route[n][a], LAMBDA d : d \notin Bad(n, a)) IN
+                       Emit([k \in 1..Len(dsts) |-> [id |-> Len(msgs) + 1, to |-> dsts[k]]])
+                 /\ SetTimer(n, a, Append(TimersOf(n, a), clock + 1))
+                 /\ UNCHANGED <<tuns, hosts, clock>>
+\* the bursts the exhaustive run tries (all segments of a superpacket share the 5-tuple, hence the firewall's answer)
+BurstFlags == {<<TRUE, TRUE, TRUE>>, <<FALSE, FALSE, FALSE>>}
+
 \* k entries of the timer wheel for address a fired in this tick (k = 1 unless stale entries exist)
 Retry(n, a, k) ==
     /\ k >= 1 /\ DueCount(TimersOf(n, a)) >= k
@@ -339,6 +375,13 @@ Next == /\ Len(msgs) < MaxMsgs
            \/ Tick
 
 Spec == Init /\ [][Next]_vars
+
+\* the same system when tun reads may be superpackets (MC_HsManager_burst.cfg; kept apart from Next so that the exhaustive
+\* run shared by C09/C10/C32 keeps its size)
+NextBurst == \/ Next
+             \/ /\ Len(msgs) < MaxMsgs
+                /\ \E n \in Nodes, a \in Addrs : \E oks \in BurstFlags : TunSendBurst(n, a, oks)
+SpecBurst == Init /\ [][NextBurst]_vars
 
 -----------------------------------------------------------------------------
 (* Structural invariants of the hostmap (C28/C29 at system level) *)
